@@ -228,6 +228,15 @@ fn answer(line: &str) -> String {
             }));
             match r { Ok(_) => "ok".into(), Err(_) => "panic".into() }
         }
+        // setenv <hex name> <hex value> / unsetenv <hex name>: change the environment of this process
+        "setenv" => {
+            unsafe { std::env::set_var(unhex_str(t[1]), unhex_str(t[2])) };
+            "ok".into()
+        }
+        "unsetenv" => {
+            unsafe { std::env::remove_var(unhex_str(t[1])) };
+            "ok".into()
+        }
         // conc <hex dir> <threads> <rounds> <shared:0|1> : threads format failing reports at a barrier;
         // every message must equal the one the same failure produces alone.
         "conc" => {
